@@ -521,16 +521,24 @@ func (v *Visitor) Visit(s *df.AnalyzerState, source df.NodeWithTrace) {
 						que = v.addNext(s, que, cur, nil, nextNodeWithTrace, cur.Status, edgeInfo)
 					}
 				}
-			} else if cur.ClosureTrace != nil {
+			} else if cur.ClosureTrace != nil && cur.ClosureTrace.Label.ClosureSummary == graphNode.Graph() {
+				// The closure at the top of the closure stack is the one whose body the data is leaving. (The stack
+				// can be stale, e.g. when the data went through a global variable written in one closure and read in
+				// another one: the data then flows to every place where the closure is created, see below.)
 				bvs := cur.ClosureTrace.Label.BoundVars()
 				if len(bvs) == 0 {
 					panic("no bound vars")
 				}
 				if graphNode.Index() < len(bvs) {
 					bv := bvs[graphNode.Index()]
+					// There may be no call to return from (empty call stack)
+					var callerTrace *df.CallStack
+					if cur.Trace != nil {
+						callerTrace = cur.Trace.Parent
+					}
 					nextNodeWithTrace := df.NodeWithTrace{
 						Node:         bv,
-						Trace:        cur.Trace.Parent,
+						Trace:        callerTrace,
 						ClosureTrace: cur.ClosureTrace.Parent,
 					}
 					que = v.addNext(s, que, cur, nil, nextNodeWithTrace, cur.Status, df.EdgeInfo{})
